@@ -26,7 +26,7 @@ ASSUMPTIONS = ["pulse samples carry the amplitude plus a small share of the nois
                "R1 = noise peak below the demodulator's own end-of-frame threshold (0.2 x strongest pulse of the frame)"]
 REQUIRED = ["r1_buffers", "r2_buffers", "second_buffer", "second_buffer_short_tail", "min_gap_after_short", "min_gap_after_long", "df17", "df20", "df21", "df4", "df5", "df11", "offset_even", "offset_odd",
             "corrupted_df17_rejected", "weakest_pulse_exactly_10dB_above_floor", "pure_noise", "multi_frame", "same_frame_twice_in_a_row", "second_reader_alive", "reader_in_debug_mode", "sessions", "session_buffer_11_or_later", "big_busy_first_buffer", "buffer_longer_than_nominal_size",
-            "iq_reads_through_read_callback", "noise_floor_exactly_zero", "strong_frames_over_a_floor_above_0.316"]
+            "iq_reads_through_read_callback", "reply_cut_by_the_end_of_the_buffer", "buffer_ends_right_after_a_preamble", "two_readers_built_through_init_fed_alternately", "noise_floor_exactly_zero", "strong_frames_over_a_floor_above_0.316"]
 
 
 def reader():
@@ -40,6 +40,35 @@ def reader():
     r.stop_flag = False
     r.exception_queue = None
     return r
+
+
+def reader_through_init():
+    """a reader built by the class's own __init__ (what an application does), with a stand-in for the pyrtlsdr driver object"""
+    import types
+    with contextlib.redirect_stdout(io.StringIO()):
+        from pyModeS.extra import rtlreader
+
+    class _Sdr:
+        def close(self):
+            pass
+
+        def read_samples(self, n):
+            raise RuntimeError("no hardware")
+    stub = types.ModuleType("rtlsdr")
+    stub.RtlSdr = _Sdr
+    had = getattr(rtlreader, "rtlsdr", None)
+    rtlreader.rtlsdr = stub
+    try:
+        with contextlib.redirect_stdout(io.StringIO()):
+            return rtlreader.RtlReader()
+    finally:
+        if had is None:
+            try:
+                del rtlreader.rtlsdr
+            except AttributeError:
+                pass
+        else:
+            rtlreader.rtlsdr = had
 
 
 def noise_sample(rng, fam, L, P):
@@ -92,6 +121,13 @@ def build(rng, case):
             exp.append(fr["hex"].upper())
         noise(fr["gap"])
     noise(case["tail"])
+    if case.get("dangling"):
+        # the read boundary cuts through a reply: only its first samples (the preamble alone, or the preamble and part of the
+        # data) are in this buffer.  It is not one of the frames of this buffer - the complete ones before it still are
+        hx_, n_, A_, k_ = case["dangling"]
+        for s in ppm.modulate(int(hx_, 16), n_, A_)[:k_]:
+            nz = noise_sample(rng, fam, L, P)
+            buf.append(s + 0.3 * nz if s > 0 else nz)
     return buf, exp, frames_info
 
 
@@ -147,10 +183,15 @@ def m_buffer(ctx, case):
     ctx.hit("r1_buffers" if regime == "R1" else "r2_buffers" if regime == "R2" else "pure_noise")
     if case.get("zero_floor") or case.get("zero_block"):
         ctx.hit("noise_floor_exactly_zero")
+    if case.get("dangling"):
+        ctx.hit("reply_cut_by_the_end_of_the_buffer")
+        if case["dangling"][3] == 16:
+            ctx.hit("buffer_ends_right_after_a_preamble")
     short = {"fam": case["fam"], "L": case["L"], "P": case["P"], "bseed": case["bseed"], "regime": regime,
              "frames": [(f["start"], f["n"], f["amp"], f["hex"], f["valid"]) for f in info]}
     if res[0] != "ok":
-        ctx.violation("process_buffer-raises-%s" % res[1], observed=res[1:], **short)
+        ctx.violation(KNOWN_GATE_AT_ZERO if gate_at_zero_and_noise_reaches_template(case) else "process_buffer-raises-%s" % res[1],
+                      observed=res[1:], **short)
         return
     out = res[1]
     if not isinstance(out, list) or any(not (isinstance(m, list) and len(m) == 2 and isinstance(m[0], str)) for m in out):
@@ -310,16 +351,29 @@ def m_callback(ctx, case):
         data = np.array([a * ph[rng.randrange(4)] for a in buf], dtype=np.complex128)
     else:
         data = np.array([cmath.rect(a, rng.uniform(-3.14159, 3.14159)) for a in buf], dtype=np.complex128)
-    r = reader()
+    two = case["bseed"] % 3 == 0
+    r = reader_through_init() if two else reader()
     got_batches = []
     r.handle_messages = lambda messages: got_batches.append(list(messages))
     cuts = sorted(set([0, len(data)] + ([len(data) // 2] if case["bseed"] % 2 else [int(rtlreader.read_size), len(data) - 5])))
     res = ("ok", None)
+    other_batches = []
+    if two:
+        # two dongles in one program: a second reader, built the same way, receives reads of pure noise in between - what a
+        # reader has collected is its own
+        r2 = reader_through_init()
+        r2.handle_messages = lambda messages: other_batches.append(list(messages))
+        noise2 = np.array([noise_sample(rng, fam, L, P) for _ in range(len(data))], dtype=np.complex128)
     with contextlib.redirect_stdout(io.StringIO()):
         for a, b in zip(cuts, cuts[1:]):
             res = call(r._read_callback, data[a:b], None)
             if res[0] != "ok":
                 break
+            if two:
+                res2 = call(r2._read_callback, noise2[a:b], None)
+                if res2[0] != "ok":
+                    res = res2
+                    break
     ctx.ev()
     short = {"fam": fam, "L": L, "P": P, "bseed": case["bseed"], "regime": case["regime"], "samples": len(data),
              "frames": [(f["start"], f["n"], f["amp"], f["hex"], f["valid"]) for f in info]}
@@ -327,8 +381,13 @@ def m_callback(ctx, case):
         ctx.violation("read_callback-raises-%s" % res[1], observed=res[1:], **short)
         return
     if len(got_batches) != 1:
-        ctx.violation("read_callback-did-not-process-a-full-buffer-once", batches=len(got_batches), **short)
+        ctx.violation("read_callback-did-not-process-a-full-buffer-once", batches=len(got_batches), two_readers=two, **short)
         return
+    if two:
+        if len(other_batches) != 1 or other_batches[0]:
+            ctx.violation("second-reader-fed-noise-did-not-report-exactly-one-empty-batch", batches=[len(b_) for b_ in other_batches], **short)
+            return
+        ctx.hit("two_readers_built_through_init_fed_alternately")
     try:
         got = [m[0] for m in got_batches[0]]
     except Exception:
@@ -421,6 +480,10 @@ def mkcase(rng, regime, nframes=None, force_df=None, strong=False):
             c["lead"] = rng.choice((450, 451, 600))
     if regime == "R2" and exact:
         c["pure"] = True     # pulse samples carry the amplitude alone (no share of the noise on top)
+    if regime == "R1" and frames and rng.random() < 0.08:
+        hx_, n_ = rand_frame(rng)
+        c["dangling"] = (hx_, n_, rng.choice((0.3, 1.0, 1.4, rng.uniform(max(0.3, 12 * P), 1.4))), rng.choice((16, 16, 17, 18, 40, n_ + 18, 2 * n_ + 15)))      # always short of the complete reply (16 + 2 n samples)
+        return c
     if frames and rng.random() < 0.25:
         k = rng.randint(1, len(frames))
         c["second"] = [dict(f) for f in frames[:k]]
@@ -469,6 +532,7 @@ def cases(ctx):
     for k in range(max(3, ctx.share(64 if quick else 640))):
         c = mkcase(rng, ("R2", "R2", "R1")[k % 3], rng.choice((1, 2, 3, 5)), None, k % 3 != 2)
         c.pop("second", None)
+        c.pop("dangling", None)      # (the callback monitor pads the buffer to the nominal size: nothing is cut at its end)
         if c.pop("short_tail", None):
             c["tail"] = 600
         yield "callback", c
